@@ -8,6 +8,7 @@ import Drive.WorldOps
 import Rsp.Spec.Emit
 import Rsp.Spec.Realm
 import Rsp.Spec.Locks
+import Rsp.Spec.Choose
 namespace Drive
 open Rsp Rsp.Radmsg Rsp.Spec
 
@@ -18,6 +19,7 @@ structure MFwd where
   client : Nat
   rq : Bytes           -- the client's packet it was made from
   t : Nat := 0         -- when it was received
+  sup : Bool := false  -- its client has since sent another request with the same identifier that was treated as new
 
 /-- a reply the implementation accepted and queued -/
 structure MDel where
@@ -48,6 +50,7 @@ structure Mon where
   udp : Bool := false
   fwdAt : List (Nat × Bytes × Nat) := []             -- (client, request packet, time) of requests that were forwarded
   srvPrev : List (String × Nat × Nat) := []          -- per server: (unanswered count, status-server mode) as last seen
+  srvSt : List (String × Nat) := []                  -- per server: connection state as last seen
   queue : List (Nat × QEnt) := []    -- mirror of the reply queues, oldest first
   rxKnown : List (Bytes × Bytes × Bool) := []   -- reference answers of the C library's regexec (rxeval ops)
 
@@ -297,8 +300,42 @@ def digestLost (out : String) : List (String × Nat × Nat) :=
       | _ => none
     else none
 
+def digestSt (out : String) : List (String × Nat) :=
+  (sections out).filterMap fun sec =>
+    if sec.startsWith "S:" then
+      match (sec.drop 2).toString.splitOn " " with
+      | name :: rest => ((rest.find? (·.startsWith "st=")).bind fun t => (t.drop 3).toString.toNat?).map fun st => (name, st)
+      | _ => none
+    else none
+
+/-- C09 on a forwarded request: among the servers of the first matching realm, in configured order,
+    the one chosen is the one the fail-over / fail-back rule names, given every server's connection
+    state and unanswered count as they were before this request -/
+def selectVerdict (m : Mon) (sc : World.SrvConf) (sname : String) (fwd : Bytes) (trToks : List String) : String :=
+  if rwTouches sc.rwOut 1 then "ok" else
+  match firstOf 1 fwd with
+  | none => "ok"
+  | some u =>
+    if u.contains 0 then "ok" else
+    match firstRealm m trToks u with
+    | some (some r) =>
+      (match World.realmServers r (codeOf fwd), m.cfg.srvs.findIdx? (·.1 = sname) with
+       | some l, some i =>
+         let entry (j : Nat) : Option Choose.Entry :=
+           (m.cfg.srvs[j]?).bind fun (n, _, _) =>
+             match m.srvSt.find? (·.1 = n), m.srvPrev.find? (·.1 = n) with
+             | some (_, st), some (_, lost, _) => some (some (st, lost))
+             | _, _ => none
+         (match l.mapM entry, l.findIdx? (· = i) with
+          | some es, some pos =>
+            if Spec.chooseOk es (some pos) then "ok" else "bad C09:forwarded-to-a-server-the-fail-over-rule-does-not-select"
+          | _, _ => "ok")
+       | _, _ => "ok")
+    | _ => "ok"
+
 def resync (m : Mon) (out : String) : Mon :=
-  let m := { m with srvPrev := if (digestLost out).isEmpty then m.srvPrev else digestLost out }
+  let m := { m with srvPrev := if (digestLost out).isEmpty then m.srvPrev else digestLost out,
+                    srvSt := if (digestSt out).isEmpty then m.srvSt else digestSt out }
   let sl := digestSlots out
   { m with qlen := digestQlens out, slots := sl,
            fwds := m.fwds.filter fun f => (sl.find? (·.1 = f.srv)).any fun s => s.2.any (·.1 = f.slot) }
@@ -373,6 +410,7 @@ def monOp1 (m : Mon) (op : String) (args : List String) (impl : List String) (tr
                  else if !frameOk m cc sc pkt b then "bad C01:untouched-attributes-not-preserved"
                  else if World.loopPrevents m.cfg.opts cc sc then "bad C13:request-forwarded-back-to-the-peer-it-came-from"
                  else if routeVerdict m cc sc s b trToks ≠ "ok" then routeVerdict m cc sc s b trToks
+                 else if selectVerdict m sc s b trToks ≠ "ok" then selectVerdict m sc s b trToks
                  else if userPwdVerdict cc sc pkt b ≠ "ok" then userPwdVerdict cc sc pkt b
                  else if ttlSkips m.cfg.opts.ttlType [cc.rwIn, sc.rwOut] then "ok"
                  else ttlVerdict m.cfg.opts.ttlType (World.effAddTtl m.cfg.opts sc.addttl) pkt b "request")
@@ -380,7 +418,9 @@ def monOp1 (m : Mon) (op : String) (args : List String) (impl : List String) (tr
         let m := { m with fwdAt := (if fwdToks.isEmpty then m.fwdAt else (k, pkt, m.now) :: m.fwdAt.filter fun (j, p, _) => !(j = k && p == pkt)),
                           recv := (k, pkt) :: m.recv,
                           queue := m.queue ++ List.replicate ((ql.getD k 0) - (m.qlen.getD k 0)) (k, QEnt.loc pkt (m.recv.any fun (j, p) => j = k && p == pkt) trToks),
-                          fwds := (fwdToks.map fun (s, sl, b) => { srv := s, slot := sl, pkt := b, client := k, rq := pkt, t := m.now }) ++ m.fwds }
+                          fwds := (fwdToks.map fun (s, sl, b) => { srv := s, slot := sl, pkt := b, client := k, rq := pkt, t := m.now }) ++
+                                  -- C10: a request treated as new (forwarded or answered) supersedes the older one with its identifier
+                                  (m.fwds.map fun f => if f.client = k && idOf f.rq == idOf pkt && (!fwdToks.isEmpty || qgrew) then { f with sup := true } else f) }
         (resync m out, verdict)
     | _, _ => (m, "bad-op")
   | "writer", [name] =>
@@ -441,11 +481,15 @@ def monOp1 (m : Mon) (op : String) (args : List String) (impl : List String) (tr
           (match fwd with
            | none => "bad C04:delivered-without-outstanding-request"
            | some f =>
-             if tries = 0 then "bad C04:delivered-for-request-never-transmitted"
+             if f.sup then "bad C10:late-reply-to-a-superseded-request-delivered"
+             else if tries = 0 then "bad C04:delivered-for-request-never-transmitted"
              else if !replyAcceptable H sc.secret (authOf f.pkt) (sc.reqMA && (sc.type = 0 || sc.type = 2)) pkt then "bad C04:unauthentic-reply-delivered"
              else if j ≠ f.client then "bad C02:delivered-to-wrong-client"
              else "ok")
         | _ => "bad C02:delivered-to-several-clients"
+      -- C09: whatever a server sends shows that it answers again: its unanswered count returns to zero
+      let verdict := if verdict = "ok" && ((digestLost out).find? (·.1 = name)).any (·.2.1 ≠ 0) then
+          "bad C09:unanswered-count-not-reset-when-the-server-answered" else verdict
       let m := match grown, fwd with
         | [j], some f => { m with queue := m.queue ++ [(j, QEnt.del { client := j, id := idOf f.rq, rep := pkt, srv := name, rq := f.rq, fwd := f.pkt })] }
         | _, _ => m
@@ -472,7 +516,12 @@ def monOp1 (m : Mon) (op : String) (args : List String) (impl : List String) (tr
           else
             match del with
             | none => "ok"
-            | some (.loc rq replay tr) => if replay then "ok" else localVerdict m cc rq b tr
+            | some (.loc rq replay tr) =>
+              if replay then "ok"
+              -- C06: a reply the proxy makes itself echoes the request's Proxy-State attributes, all of them, in order
+              else if !rwTouches cc.rwIn 33 && (attrsOf b).filter (·.1 = 33) != (attrsOf rq).filter (·.1 = 33) then
+                "bad C06:local-reply-does-not-echo-the-requests-proxy-states-in-order"
+              else localVerdict m cc rq b tr
             | some (.del d) =>
               (match srvConfOf m d.srv with
                | none => "ok"
